@@ -50,6 +50,7 @@ def write_evidence(check, tier, seed, agg, wall, violations_n, extra_assumptions
         'scheduler_steps': agg['steps'],
         'context_switches': agg['switches'],
         'preemptive_switches': agg['preemptions'],
+        'thread_starvations': agg['starvations'],
         'stalls': agg['stalls'],
         'distinct_trace_digests': len(agg['digests']),
         'distinct_schedule_digests': len(agg['sched_digests']),
@@ -142,7 +143,7 @@ def main(argv=None):
                 print(e)
         for ln in res.get('notes', {}).get('hist', []):
             print('  H', ln)
-        for k in ('harness_error', 'probes', 'fired', 'sim_time', 'steps', 'switches', 'preemptions', 'digest'):
+        for k in ('harness_error', 'probes', 'fired', 'sim_time', 'steps', 'switches', 'preemptions', 'starvations', 'digest'):
             print(k, '=', res.get(k))
         for v in res.get('violations', []):
             print('VIOL', v['sig'], '\n    ', v['msg'])
@@ -156,7 +157,7 @@ def main(argv=None):
     base_seed = args.seed * 1_000_003
     t0 = time.time()
     agg = {'runs': 0, 'directed': 0, 'directed_total': len(directed), 'random': 0, 'sim_time': 0.0, 'steps': 0,
-           'switches': 0, 'preemptions': 0, 'stalls': 0, 'digests': set(), 'sched_digests': set(),
+           'switches': 0, 'preemptions': 0, 'stalls': 0, 'starvations': 0, 'digests': set(), 'sched_digests': set(),
            'nontrivial_digests': set(), 'fired': {}, 'probes': {}, 'samples': [], 'scenarios': {},
            'harness_errors': 0, 'known_seen': {}, 'seed_lo': None, 'seed_hi': None}
     violations = {}      # sig -> (plan, res, violation)
@@ -177,7 +178,7 @@ def main(argv=None):
             agg['seed_lo'] = s if agg['seed_lo'] is None else min(agg['seed_lo'], s)
             agg['seed_hi'] = s if agg['seed_hi'] is None else max(agg['seed_hi'], s)
         agg['sim_time'] += res.get('sim_time', 0)
-        for k in ('steps', 'switches', 'preemptions', 'stalls'):
+        for k in ('steps', 'switches', 'preemptions', 'stalls', 'starvations'):
             agg[k] += res.get(k, 0)
         agg['digests'].add(res['digest'])
         agg['sched_digests'].add(res['sched_digest'])
